@@ -54,7 +54,11 @@ def gen_cases(rng, tier):
             general = rng.random() < 0.15
             a = rng.choice([1.0, 0.0]) if general else 0.0
             dd = 1.0 if (general and a == 0.0) else 0.0
-            ck, cs = 5, [fbits(a), fbits(b), fbits(c), fbits(dd), fbits(0.0), fbits(f if not (general and rng.random() < 0.3) else 0.0)]
+            # a general RAT_FUNC is one with a, d or e different from zero (or f = 0): each alone must make it general
+            ee = 0.0
+            if general and rng.random() < 0.4:
+                a, dd, ee = 0.0, 0.0, rng.choice([1.0, -1.0, 1e-3, 0.5, 255.0])
+            ck, cs = 5, [fbits(a), fbits(b), fbits(c), fbits(dd), fbits(ee), fbits(f if not (general and rng.random() < 0.3) else 0.0)]
         else:
             ck, cs = rng.choice([0, 1, 2, 4, 6, 7, 8, 9]), []
         # declared limits relative to an estimate of the range
